@@ -190,9 +190,11 @@ type case = {
   mutable sigs : signal list; mutable layout : int list; mutable table : outval list list;
   mutable echo : bool; mutable wdefault : bool; mutable faults : (int * fault) list;
   mutable rng : string list; mutable max : int; mutable fuel : int; mutable cont : bool;
+  mutable tree : string list option;   (* kind dig: the XML tree in prefix token form *)
 }
 let new_case () = { id = ""; kind = "run"; src = ""; sigs = []; layout = []; table = []; echo = false;
-                    wdefault = false; faults = []; rng = []; max = 1000; fuel = 20000; cont = false }
+                    wdefault = false; faults = []; rng = []; max = 1000; fuel = 20000; cont = false;
+                    tree = None }
 
 let parse_inval s = if s = "Z" then IZ else IVal (z_of_zt (BigZ.of_string s))
 let parse_outval s = if s = "Z" then OZ else if s = "X" then OX else OVal (z_of_zt (BigZ.of_string s))
@@ -234,6 +236,7 @@ let read_cases (ic : in_channel) : case list =
        | "max" :: v :: _ -> !cur.max <- int_of_string v
        | "fuel" :: v :: _ -> !cur.fuel <- int_of_string v
        | "cont" :: v :: _ -> !cur.cont <- (v = "1")
+       | "tree" :: rest -> !cur.tree <- Some rest
        | "end" :: _ -> cases := !cur :: !cases
        | _ -> ()
      done
@@ -261,8 +264,62 @@ let make_gen (events : string list) (out : Buffer.t) : gen =
     Buffer.add_string out (" b" ^ zs hi ^ " d" ^ BigZ.to_string v);
     z_of_zt v
 
+(* ---------------------------------------------------------------- XML trees (kind dig) *)
+(* Prefix token encoding of an [xdoc] (the children of roxmltree's Root node, in order):
+     node ::= E <tag> <nattrs> (<key> <value>)^nattrs <nchildren> node^nchildren
+            | T <text>
+            | O                                  (comment / processing instruction)
+   <tag> <key> <value> <text> are the hex of the UTF-8 bytes, `-` for the empty string.
+   Tag and attribute names are local names; namespaced attributes are left out. *)
+let hex_field (h : string) : Model.text = if h = "-" then [] else text_of_string (hex_decode h)
+
+let rec parse_xnode (toks : string list) : xnode * string list =
+  match toks with
+  | "E" :: tag :: na :: rest ->
+      let rec attrs k toks acc =
+        if k = 0 then (List.rev acc, toks)
+        else match toks with
+          | key :: v :: r -> attrs (k - 1) r ((hex_field key, hex_field v) :: acc)
+          | _ -> failwith "tree: truncated attribute list" in
+      let (al, rest) = attrs (int_of_string na) rest [] in
+      (match rest with
+       | nc :: rest ->
+           let (cs, rest) = parse_xnodes (int_of_string nc) rest [] in
+           (XElem (hex_field tag, al, cs), rest)
+       | [] -> failwith "tree: missing child count")
+  | "T" :: t :: rest -> (XText (hex_field t), rest)
+  | "O" :: rest -> (XOther, rest)
+  | t :: _ -> failwith ("tree: bad token " ^ t)
+  | [] -> failwith "tree: truncated"
+and parse_xnodes k toks acc =
+  if k = 0 then (List.rev acc, toks)
+  else let (n, rest) = parse_xnode toks in parse_xnodes (k - 1) rest (n :: acc)
+
+let rec parse_xdoc (toks : string list) : xdoc =
+  match toks with
+  | [] -> []
+  | _ -> let (n, rest) = parse_xnode toks in n :: parse_xdoc rest
+
 (* ---------------------------------------------------------------- runners *)
 let pr = Printf.printf
+
+let run_dig (c : case) =
+  match c.tree with
+  | None -> pr "DIG notree\n"      (* byte-level corruptions: no tree, the model is not consulted *)
+  | Some toks ->
+      (match dig_parse (parse_xdoc toks) with
+       | Ok f ->
+           pr "DIG ok\n";
+           pr "SIGNALS %s\n" (String.concat " " (List.map signal_s f.df_signals));
+           List.iteri (fun i (n, src) -> pr "TEST %d %s %s\n" i (nm n) (hex_encode (string_of_text src))) f.df_tests
+       | Err DE_EmptyTest -> pr "DIG err EmptyTest\n"
+       | Err (DE_MissingSignals names) ->
+           pr "DIG err MissingSignals\n";
+           (* a set: sorted by UTF-8 bytes, as the harness does *)
+           let l = List.sort_uniq compare (List.map string_of_text names) in
+           pr "MISSING %s\n" (String.concat " " (List.map (fun s -> nm (text_of_string s)) l))
+       | Panic s -> pr "DIG panic # site %s\n" (ns s)
+       | OOF -> pr "DIG oof\n")
 
 let print_parse_result (r : (perr, parsed) r) : parsed option =
   match r with
@@ -365,6 +422,7 @@ let run_case (c : case) =
                    if tc.tc_read_outputs <> [] then pr "STATIC err\n"
                    else begin pr "STATIC ok\n"; run_iter c tc static_driver false true end
                  end))
+   | "dig" -> run_dig c
    | k -> pr "UNKNOWN kind %s\n" k);
   pr "DONE %s\n" c.id
 
